@@ -289,6 +289,27 @@ UNSUP_EXPRS = [
     ("qubit-alloc", "qubit()"), ("tuple-with-qubit", "(qubit(), 1)"), ("await", None),
 ]
 
+# ill-formed unpackings: every split (n names left of the star, m right of it) x a starred section whose
+# elements differ in type / arity mismatches / nested patterns / array sources that are too short
+for _nl in range(3):
+    for _nr in range(3):
+        _tg = ", ".join([f"ul{i}" for i in range(_nl)] + ["*ust"] + [f"ur{i}" for i in range(_nr)])
+        _left, _right = ["1"] * _nl, ["2"] * _nr
+        for _name, _mid in (("hetero-first", ["True", "3", "4"]), ("hetero-last", ["3", "4", "True"]), ("hetero-two", ["3", "2.5"])):
+            UNSUP_STMTS.append((f"unpack-{_nl}-star-{_nr}:{_name}", f"{_tg} = {', '.join(_left + _mid + _right)}{',' if _nl + _nr + len(_mid) == 1 else ''}"))
+        if _nl + _nr >= 1:
+            UNSUP_STMTS.append((f"unpack-{_nl}-star-{_nr}:too-few-values", f"{_tg} = {', '.join((_left + _right)[:-1]) or '()'}{',' if _nl + _nr == 2 else ''}"))
+            UNSUP_STMTS.append((f"unpack-{_nl}-star-{_nr}:array-too-short", f"{_tg} = array({', '.join((_left + _right)[:-1])})"))
+        UNSUP_STMTS.append((f"unpack-{_nl}-star-{_nr}:non-iterable", f"{_tg} = {{v}}"))
+UNSUP_STMTS += [
+    ("unpack:too-many-values", "um0, um1 = 1, 2, 3"),
+    ("unpack:too-few-values", "um0, um1, um2 = 1, 2"),
+    ("unpack:nested-star", "(un0, *un1), un2 = (1, True, 2), 3"),
+    ("unpack:two-stars-nested", "*us0, (us1, *us2) = 1, 2, (3, 4.5, 5)"),
+    ("unpack:star-only-hetero", "*uo, = 1, True"),
+    ("unpack:list-target-hetero", "[ut0, *ut1] = 1, 2, True"),
+]
+
 LITERALS = [
     ("bigint", "18446744073709551616"), ("int64-max+1", "9223372036854775808"),
     ("negbig", "-9223372036854775809"), ("str", "'lit'"), ("none", "None"), ("bytes", "b'lit'"),
@@ -962,6 +983,25 @@ def _arm(seconds):
     signal.setitimer(signal.ITIMER_VIRTUAL, seconds)
 
 
+SHARED_NAME = "vprog_c02"
+_SNIP = re.compile(r"^\s*(\d+) \| (.*)$")
+
+
+def stale_snippet_line(rendered: str, full: str) -> str | None:
+    """Every numbered snippet line of the rendered diagnostic must be that line of the CURRENT source
+    (modulo trimmed indentation)."""
+    lines = full.split("\n")
+    for ln in (rendered or "").splitlines():
+        m = _SNIP.match(ln)
+        if not m:
+            continue
+        n, text = int(m.group(1)), m.group(2)
+        if not (1 <= n <= len(lines)) or lines[n - 1].strip() != text.strip():
+            have = lines[n - 1].strip() if 1 <= n <= len(lines) else "<no such line>"
+            return f"diagnostic shows line {n} as `{text.strip()[:80]}` but the source has `{have[:80]}`"
+    return None
+
+
 def run_one(item) -> dict:
     """item = (src_without_prelude, entry, exp, operator, detail)."""
     from checks.c01 import set_experimental
@@ -982,9 +1022,11 @@ def run_one(item) -> dict:
     _arm(HANG_S)
     try:
         set_experimental(exp)
-        o, mod = gload.run_src(src, fn=entry)
+        # every mutant of a worker is loaded under the SAME module / file name, as when a user edits and
+        # re-runs one file in a session: diagnostics must be rendered against the current text
+        o, mod = gload.run_src(src, fn=entry, name=SHARED_NAME)
         _arm(0)
-        fname = f"<verif:vprog{gload._COUNTER[0]}>"
+        fname = f"<verif:{SHARED_NAME}>"
         nlines = full.count("\n") + 1
         if o.kind == "ok":
             rec["status"] = "accepted"
@@ -994,6 +1036,11 @@ def run_one(item) -> dict:
             rec["stage"] = o.stage
             if not o.spans:
                 rec["nospan"] = True
+            stale = stale_snippet_line(o.rendered, full)
+            if stale:
+                rec["status"] = "bad_span"
+                rec["key"] = "rendered-snippet-is-not-the-current-source"
+                rec["what"] = stale
             for (f, l0, _c0, l1, _c1) in o.spans:
                 if f != fname or not (1 <= l0 <= nlines) or not (1 <= l1 <= nlines) or l1 < l0:
                     rec["status"] = "bad_span"
